@@ -77,6 +77,10 @@ def call_source(s: Script, name: str, c: dict) -> str:
         m = [m, m.capitalize(), m.upper(), m.title()][(len(m) + (0 if a[0] == NONE else abs(int(a[0])))) % 4]
         if a[0] == NONE:
             return f'{name}.melody("{m}")'
+        if a[0] >= 10000:             # a fractional tempo (tenths): a literal, a name-free expression, or a run-time product
+            t10 = a[0] - 10000
+            lit = repr(t10 / 10) if t10 % 4 else f"{t10} / 10"
+            return f'{name}.melody("{m}", tempo={lit})' if not s.runtime else f'{name}.melody("{m}", tempo={s.val(t10)} * 0.1)'
         return f'{name}.melody("{m}", tempo={s.val(a[0])})'
     raise AssertionError(act)
 
